@@ -1,4 +1,201 @@
-import G3d.Model.Approx
+import G3d.Proofs.Rounded
+import G3d.Proofs.IntervalReal
+/-!
+# C07 — interval arithmetic on approximate floats encloses the exact result
+
+For **every** scalar type `F` whose arithmetic satisfies the rounding laws `Rounded F`
+(faithful basic operations, value-monotone `next_float_up/down`, `<` comparing values — see
+`Proofs/Rounded.lean`; discharged for the soft-float model of binary64/binary32 in `Proofs/SoftFloat*.lean`),
+for all finite well-formed operand intervals, for all reals inside them, and for each of the 18 operator forms
+of `round_error.rs`: the exact real result lies inside the result interval (whose end points may have overflowed
+to ±∞), no end point is NaN, and the lower end point is ≤ the upper one.
+
+No bound on magnitudes: subnormals, signed zeros, powers of two and overflow are inside the statement.
+The functions below are the *same* definitions the driver runs against the crate.
+-/
 namespace G3d.C07
-theorem stub : True := trivial
+open G3d Num Rounded
+
+variable {F : Type} [Num F] [Rounded F]
+
+/-- a finite, well-formed operand interval `[l, h]` -/
+def WFin (a : Approx F) (l h : ℝ) : Prop := Is a.low l ∧ Is a.high h ∧ l ≤ h
+
+/-- the result interval `r` encloses the real `z` and is well formed -/
+def Encl (r : Approx F) (z : ℝ) : Prop :=
+  (Lo r.low z ∧ Hi r.high z) ∧ (¬ nan r.low ∧ ¬ nan r.high ∧ val r.low ≤ val r.high)
+
+theorem encl_of {r : Approx F} {z : ℝ} (hl : Lo r.low z) (hh : Hi r.high z) : Encl r z :=
+  ⟨⟨hl, hh⟩, hl.1, hh.1, le_trans hl.2 hh.2⟩
+
+/-- `From<Float>`: a finite scalar becomes a point interval -/
+theorem ofFloat_wfin {s : F} {y : ℝ} (hs : Is s y) : WFin (Approx.ofFloat s) y y := by
+  obtain ⟨n1, v1⟩ := sub_zero_exact s y hs.1 hs.2
+  obtain ⟨n2, v2⟩ := add_zero_exact s y hs.1 hs.2
+  exact ⟨⟨n1, v1⟩, ⟨n2, v2⟩, le_refl _⟩
+
+/-! ## unary forms -/
+
+theorem neg_encloses {a : Approx F} {al ah x : ℝ} (ha : WFin a al ah) (h1 : al ≤ x) (h2 : x ≤ ah) :
+    Encl a.neg (-x) := by
+  obtain ⟨hl, hh, _⟩ := ha
+  obtain ⟨nl, vl⟩ := neg_spec a.low hl.1
+  obtain ⟨nh, vh⟩ := neg_spec a.high hh.1
+  apply encl_of
+  · refine ⟨nh, ?_⟩
+    show val (-a.high) ≤ _
+    rw [vh, hh.2, ← EReal.coe_neg]; exact EReal.coe_le_coe_iff.2 (by linarith)
+  · refine ⟨nl, ?_⟩
+    show _ ≤ val (-a.low)
+    rw [vl, hl.2, ← EReal.coe_neg]; exact EReal.coe_le_coe_iff.2 (by linarith)
+
+theorem sqrt_encloses {a : Approx F} {al ah x : ℝ} (ha : WFin a al ah) (h0 : 0 ≤ al) (h1 : al ≤ x) (h2 : x ≤ ah) :
+    Encl a.sqrt (Real.sqrt x) := by
+  obtain ⟨hl, hh, _⟩ := ha
+  obtain ⟨n1, l1, _⟩ := sqrt_spec a.low al hl.1 hl.2 h0
+  obtain ⟨n2, _, u2⟩ := sqrt_spec a.high ah hh.1 hh.2 (by linarith)
+  apply encl_of
+  · exact (show Lo (nextDown (Num.sqrt a.low)) (Real.sqrt al) from ⟨(nextDown_spec _ n1).1, l1⟩).mono
+      (Real.sqrt_le_sqrt h1)
+  · exact (show Hi (nextUp (Num.sqrt a.high)) (Real.sqrt ah) from ⟨(nextUp_spec _ n2).1, u2⟩).mono
+      (Real.sqrt_le_sqrt h2)
+
+/-! ## binary forms -/
+
+section binary
+variable {a b : Approx F} {al ah bl bh x y : ℝ}
+
+theorem add_encloses (ha : WFin a al ah) (hb : WFin b bl bh) (h1 : al ≤ x) (h2 : x ≤ ah) (h3 : bl ≤ y) (h4 : y ≤ bh) :
+    Encl (a.add b) (x + y) := by
+  obtain ⟨_, l, _⟩ := add_lo_hi ha.1 hb.1
+  obtain ⟨_, _, u⟩ := add_lo_hi ha.2.1 hb.2.1
+  exact encl_of (l.mono (by linarith)) (u.mono (by linarith))
+
+theorem sub_encloses (ha : WFin a al ah) (hb : WFin b bl bh) (h1 : al ≤ x) (h2 : x ≤ ah) (h3 : bl ≤ y) (h4 : y ≤ bh) :
+    Encl (a.sub b) (x - y) := by
+  obtain ⟨_, l, _⟩ := sub_lo_hi ha.1 hb.2.1
+  obtain ⟨_, _, u⟩ := sub_lo_hi ha.2.1 hb.1
+  exact encl_of (l.mono (by linarith)) (u.mono (by linarith))
+
+theorem mul_encloses (ha : WFin a al ah) (hb : WFin b bl bh) (h1 : al ≤ x) (h2 : x ≤ ah) (h3 : bl ≤ y) (h4 : y ≤ bh) :
+    Encl (a.mul b) (x * y) := by
+  obtain ⟨_, l0, u0⟩ := mul_lo_hi ha.1 hb.1
+  obtain ⟨_, l1, u1⟩ := mul_lo_hi ha.2.1 hb.1
+  obtain ⟨_, l2, u2⟩ := mul_lo_hi ha.1 hb.2.1
+  obtain ⟨_, l3, u3⟩ := mul_lo_hi ha.2.1 hb.2.1
+  exact encl_of (lo_of_four l0 l1 l2 l3 (corner_lo h1 h2 h3 h4)).nextDown
+    (hi_of_four u0 u1 u2 u3 (corner_hi h1 h2 h3 h4)).nextUp
+
+theorem div_encloses (ha : WFin a al ah) (hb : WFin b bl bh) (h0 : 0 < bl ∨ bh < 0)
+    (h1 : al ≤ x) (h2 : x ≤ ah) (h3 : bl ≤ y) (h4 : y ≤ bh) :
+    Encl (a.div b) (x / y) := by
+  have hbl : bl ≠ 0 := by rcases h0 with h | h <;> [exact ne_of_gt h; exact ne_of_lt (by linarith [hb.2.2])]
+  have hbh : bh ≠ 0 := by rcases h0 with h | h <;> [exact ne_of_gt (by linarith [hb.2.2]); exact ne_of_lt h]
+  obtain ⟨_, l0, u0⟩ := div_lo_hi ha.1 hb.1 hbl
+  obtain ⟨_, l1, u1⟩ := div_lo_hi ha.2.1 hb.1 hbl
+  obtain ⟨_, l2, u2⟩ := div_lo_hi ha.1 hb.2.1 hbh
+  obtain ⟨_, l3, u3⟩ := div_lo_hi ha.2.1 hb.2.1 hbh
+  exact encl_of (lo_of_four l0 l1 l2 l3 (corner_div_lo h1 h2 h3 h4 h0)).nextDown
+    (hi_of_four u0 u1 u2 u3 (corner_div_hi h1 h2 h3 h4 h0)).nextUp
+
+/-! ## in-place forms (`+=`, `-=` share the bodies above; `*=`, `/=` have their own: one outward step) -/
+
+theorem addAssign_encloses (ha : WFin a al ah) (hb : WFin b bl bh) (h1 : al ≤ x) (h2 : x ≤ ah) (h3 : bl ≤ y) (h4 : y ≤ bh) :
+    Encl (a.addAssign b) (x + y) := add_encloses ha hb h1 h2 h3 h4
+
+theorem subAssign_encloses (ha : WFin a al ah) (hb : WFin b bl bh) (h1 : al ≤ x) (h2 : x ≤ ah) (h3 : bl ≤ y) (h4 : y ≤ bh) :
+    Encl (a.subAssign b) (x - y) := sub_encloses ha hb h1 h2 h3 h4
+
+theorem mulAssign_encloses (ha : WFin a al ah) (hb : WFin b bl bh) (h1 : al ≤ x) (h2 : x ≤ ah) (h3 : bl ≤ y) (h4 : y ≤ bh) :
+    Encl (a.mulAssign b) (x * y) := by
+  obtain ⟨n0, l0, u0⟩ := mul_lo_hi ha.1 hb.1
+  obtain ⟨n1, l1, u1⟩ := mul_lo_hi ha.2.1 hb.1
+  obtain ⟨n2, l2, u2⟩ := mul_lo_hi ha.1 hb.2.1
+  obtain ⟨n3, l3, u3⟩ := mul_lo_hi ha.2.1 hb.2.1
+  exact encl_of (lo_nd_of_four n0 n1 n2 n3 l0 l1 l2 l3 (corner_lo h1 h2 h3 h4))
+    (hi_nu_of_four n0 n1 n2 n3 u0 u1 u2 u3 (corner_hi h1 h2 h3 h4))
+
+theorem divAssign_encloses (ha : WFin a al ah) (hb : WFin b bl bh) (h0 : 0 < bl ∨ bh < 0)
+    (h1 : al ≤ x) (h2 : x ≤ ah) (h3 : bl ≤ y) (h4 : y ≤ bh) :
+    Encl (a.divAssign b) (x / y) := by
+  have hbl : bl ≠ 0 := by rcases h0 with h | h <;> [exact ne_of_gt h; exact ne_of_lt (by linarith [hb.2.2])]
+  have hbh : bh ≠ 0 := by rcases h0 with h | h <;> [exact ne_of_gt (by linarith [hb.2.2]); exact ne_of_lt h]
+  obtain ⟨n0, l0, u0⟩ := div_lo_hi ha.1 hb.1 hbl
+  obtain ⟨n1, l1, u1⟩ := div_lo_hi ha.2.1 hb.1 hbl
+  obtain ⟨n2, l2, u2⟩ := div_lo_hi ha.1 hb.2.1 hbh
+  obtain ⟨n3, l3, u3⟩ := div_lo_hi ha.2.1 hb.2.1 hbh
+  exact encl_of (lo_nd_of_four n0 n1 n2 n3 l0 l1 l2 l3 (corner_div_lo h1 h2 h3 h4 h0))
+    (hi_nu_of_four n0 n1 n2 n3 u0 u1 u2 u3 (corner_div_hi h1 h2 h3 h4 h0))
+
+end binary
+
+/-! ## scalar forms -/
+
+section scalar
+variable {a : Approx F} {s : F} {al ah x y : ℝ}
+
+theorem addF_encloses (ha : WFin a al ah) (hs : Is s y) (h1 : al ≤ x) (h2 : x ≤ ah) : Encl (a.addF s) (x + y) :=
+  add_encloses ha (ofFloat_wfin hs) h1 h2 (le_refl _) (le_refl _)
+theorem subF_encloses (ha : WFin a al ah) (hs : Is s y) (h1 : al ≤ x) (h2 : x ≤ ah) : Encl (a.subF s) (x - y) :=
+  sub_encloses ha (ofFloat_wfin hs) h1 h2 (le_refl _) (le_refl _)
+theorem divF_encloses (ha : WFin a al ah) (hs : Is s y) (hy : y ≠ 0) (h1 : al ≤ x) (h2 : x ≤ ah) :
+    Encl (a.divF s) (x / y) :=
+  div_encloses ha (ofFloat_wfin hs) (by rcases lt_or_gt_of_ne hy with h | h <;> [right; left] <;> exact h)
+    h1 h2 (le_refl _) (le_refl _)
+theorem addAssignF_encloses (ha : WFin a al ah) (hs : Is s y) (h1 : al ≤ x) (h2 : x ≤ ah) :
+    Encl (a.addAssignF s) (x + y) :=
+  addAssign_encloses ha (ofFloat_wfin hs) h1 h2 (le_refl _) (le_refl _)
+theorem subAssignF_encloses (ha : WFin a al ah) (hs : Is s y) (h1 : al ≤ x) (h2 : x ≤ ah) :
+    Encl (a.subAssignF s) (x - y) :=
+  subAssign_encloses ha (ofFloat_wfin hs) h1 h2 (le_refl _) (le_refl _)
+theorem mulAssignF_encloses (ha : WFin a al ah) (hs : Is s y) (h1 : al ≤ x) (h2 : x ≤ ah) :
+    Encl (a.mulAssignF s) (x * y) :=
+  mulAssign_encloses ha (ofFloat_wfin hs) h1 h2 (le_refl _) (le_refl _)
+theorem divAssignF_encloses (ha : WFin a al ah) (hs : Is s y) (hy : y ≠ 0) (h1 : al ≤ x) (h2 : x ≤ ah) :
+    Encl (a.divAssignF s) (x / y) :=
+  divAssign_encloses ha (ofFloat_wfin hs) (by rcases lt_or_gt_of_ne hy with h | h <;> [right; left] <;> exact h)
+    h1 h2 (le_refl _) (le_refl _)
+
+/-- `Mul<Float>` has its own body: raw products, swap, then two outward steps. -/
+theorem mulF_encloses (ha : WFin a al ah) (hs : Is s y) (h1 : al ≤ x) (h2 : x ≤ ah) :
+    Encl (a.mulF s) (x * y) := by
+  obtain ⟨n1, l1, u1⟩ := mul_lo_hi ha.1 hs
+  obtain ⟨n2, l2, u2⟩ := mul_lo_hi ha.2.1 hs
+  have hz : (al * y ≤ x * y ∧ x * y ≤ ah * y) ∨ (ah * y ≤ x * y ∧ x * y ≤ al * y) := by
+    by_cases hy : 0 ≤ y
+    · left; constructor <;> nlinarith
+    · right; constructor <;> nlinarith
+  have mn := lo_min (p := a.low * s) (q := a.high * s) n1 n2
+  have mx := hi_max (p := a.high * s) (q := a.low * s) n2 n1
+  unfold Approx.mulF
+  simp only [Num.gt] at mx ⊢
+  by_cases hc : Num.lt (a.high * s) (a.low * s) = true
+  · simp only [hc, if_true] at mn mx ⊢
+    apply encl_of
+    · show Lo (nextDown (nextDown (a.high * s))) (x * y)
+      refine Lo.nextDown ?_
+      rcases hz with h | h
+      · exact ⟨l1.1 |> fun _ => (nextDown_spec _ n2).1,
+          le_trans (nextDown_mono _ _ n2 n1 mn.2.1) (l1.mono h.1).2⟩
+      · exact l2.mono h.1
+    · show Hi (nextUp (nextUp (a.low * s))) (x * y)
+      refine Hi.nextUp ?_
+      rcases hz with h | h
+      · exact ⟨(nextUp_spec _ n1).1, le_trans (u2.mono h.2).2 (nextUp_mono _ _ n2 n1 mx.2.1)⟩
+      · exact u1.mono h.2
+  · simp only [hc] at mn mx ⊢
+    apply encl_of
+    · show Lo (nextDown (nextDown (a.low * s))) (x * y)
+      refine Lo.nextDown ?_
+      rcases hz with h | h
+      · exact l1.mono h.1
+      · exact ⟨(nextDown_spec _ n1).1, le_trans (nextDown_mono _ _ n1 n2 mn.2.2) (l2.mono h.1).2⟩
+    · show Hi (nextUp (nextUp (a.high * s))) (x * y)
+      refine Hi.nextUp ?_
+      rcases hz with h | h
+      · exact u2.mono h.2
+      · exact ⟨(nextUp_spec _ n2).1, le_trans (u1.mono h.2).2 (nextUp_mono _ _ n1 n2 mx.2.2)⟩
+
+end scalar
+
 end G3d.C07
